@@ -186,9 +186,9 @@ theorem exec_incCounter (ks : KsId) (n : Nat) :
 @[simp] theorem exec_memGet : exec wi w .memGet = (w, (w.wallet wi).mem) := rfl
 @[simp] theorem exec_memSet (m : WMem) :
     exec wi w (.memSet m) = (w.setWallet wi { w.wallet wi with mem := m }, ()) := rfl
-@[simp] theorem exec_emitToken (mi : Nat) (ps : List WProof) :
-    exec wi w (.emitToken mi ps) =
-      ({ w with tokens := w.tokens ++ [{ id := w.tokens.length, mint := mi, proofs := ps }] }, ()) := rfl
+@[simp] theorem exec_emitToken (mi : Nat) (ps : List WProof) (pend : Bool) :
+    exec wi w (.emitToken mi ps pend) =
+      ({ w with tokens := w.tokens ++ [{ id := w.tokens.length, mint := mi, proofs := ps, sender := if pend then some wi else none }] }, ()) := rfl
 @[simp] theorem exec_fresh : exec wi w .fresh = ({ w with nextId := w.nextId + 1 }, w.nextId) := rfl
 
 theorem exec_cInfo (mi : Nat) :
